@@ -265,13 +265,16 @@ theorem tsd_struct_covered {opts : Opts} {api : Api} {out : TypesOut} (wf : ApiW
   rw [hh] at h2 h5 h6
   exact ⟨d, c.mem (mem_E_of_ns hn hty (mem_nsE_struct hty hs hd)), h1, h2, h3, h4, h5, h6⟩
 
+/-- the right-hand side of a TypeScript union type: the alternatives, `never` when there are none -/
+def unionRhs (alts : List Ref) : TExpr := if alts.isEmpty then bare "never" else .union alts
+
 /-- tsd_types: every own tag of a union has its variant interface (`'.tag': 'name'`, the value at the mapped type
-or `extends` the struct), and the union type lists the parent and all variants -/
+or `extends` the struct), and the union type lists the parent and all variants (`never` when there is neither) -/
 theorem tsd_union_covered {opts : Opts} {api : Api} {out : TypesOut} (wf : ApiWF api)
     (h : tsdTypes opts api = .ok out) {n : NamespaceD} (hn : n ∈ api.namespaces) {u : UnionD}
     (hu : DataType.union u ∈ n.dataTypes) :
     (∃ d ∈ out.decls, d.scope = some n.name ∧ d.name = u.q.name ∧ d.kind = .typeAlias
-        ∧ d.rhs = some (.union ((u.parent.map (tsdName (some n.name))).toList
+        ∧ d.rhs = some (unionRhs ((u.parent.map (tsdName (some n.name))).toList
             ++ u.tags.map (fun t => ⟨none, variantName u t⟩))))
     ∧ ∀ t ∈ u.tags, ∃ d ∈ out.decls, d.scope = some n.name ∧ d.name = variantName u t ∧ d.kind = .interface
         ∧ (⟨".tag", .lits [t.name], false⟩ : Member) ∈ d.members
@@ -283,9 +286,9 @@ theorem tsd_union_covered {opts : Opts} {api : Api} {out : TypesOut} (wf : ApiWF
   have hty := hasTypes_of_data hu
   constructor
   · have : ∃ d ∈ tsdUnionDecls api (fileOf opts n.name) u, d.scope = some u.q.ns ∧ d.name = u.q.name
-        ∧ d.kind = .typeAlias ∧ d.rhs = some (.union ((u.parent.map (tsdName (some u.q.ns))).toList
+        ∧ d.kind = .typeAlias ∧ d.rhs = some (unionRhs ((u.parent.map (tsdName (some u.q.ns))).toList
             ++ u.tags.map (fun t => ⟨none, variantName u t⟩))) := by
-      simp only [tsdUnionDecls]
+      simp only [tsdUnionDecls, unionRhs]
       exact ⟨_, List.mem_append_right _ (List.mem_singleton.mpr rfl), rfl, rfl, rfl, rfl⟩
     obtain ⟨d, hd, h1, h2, h3, h4⟩ := this
     rw [hh] at h1 h4
@@ -346,11 +349,12 @@ theorem all_fields_chain (api : Api) (fuel : Nat) (s : StructD) (f : FieldD) :
     cases ho : f.isOptional <;> simp [h, ho]
 
 /-- js_types: the typedef of a union has an optional property per non-void tag of the union and of all its
-ancestors at the mapped type, and a `.tag` property listing every tag -/
+ancestors at the mapped type, and - unless the union has no tag at all - a `.tag` property listing every tag -/
 theorem js_union_covered {opts : Opts} {api : Api} {ds : List Decl} (h : jsTypes opts api = .ok ds)
     {n : NamespaceD} (hn : n ∈ api.namespaces) {u : UnionD} (hu : DataType.union u ∈ n.dataTypes) :
     ∃ d ∈ ds, d.name = (jsName u.q).name ∧ d.kind = .typedef
-      ∧ (⟨".tag", .lits ((unionAllTags api (api.unions.length + 1) u).map (·.name)), false⟩ : Member) ∈ d.members
+      ∧ ((unionAllTags api (api.unions.length + 1) u).isEmpty = false →
+          (⟨".tag", .lits ((unionAllTags api (api.unions.length + 1) u).map (·.name)), false⟩ : Member) ∈ d.members)
       ∧ ∀ t ∈ unionAllTags api (api.unions.length + 1) u, (unwrapAll t.ty).1 ≠ .prim .void →
           (⟨t.name, jsFmtType api (unwrapAll t.ty).1, true⟩ : Member) ∈ d.members := by
   have hm := jsTypesE_data (opts := opts) hn hu
@@ -360,54 +364,38 @@ theorem js_union_covered {opts : Opts} {api : Api} {ds : List Decl} (h : jsTypes
   | ok d =>
     rw [hd] at hm
     refine ⟨d, (mem_of_seqE h d).mpr hm, jsUnionDecl_name hd, ?_⟩
-    simp only [jsUnionDecl] at hd
-    split at hd
-    · simp at hd
-    · simp at hd; subst hd
-      refine ⟨rfl, by simp, fun t ht hv => ?_⟩
-      refine List.mem_append_left _ (List.mem_filterMap.mpr ⟨t, ht, ?_⟩)
-      simp [hv]
+    simp only [jsUnionDecl, Except.ok.injEq] at hd
+    subst hd
+    refine ⟨rfl, fun hne => by simp [hne], fun t ht hv => ?_⟩
+    refine List.mem_append_left _ (List.mem_filterMap.mpr ⟨t, ht, ?_⟩)
+    simp [hv]
 
 /-! ## Optional markers -/
 
+/-- `unwrap` reports a nullable exactly when the type, seen through aliases, is `T?` -/
+theorem unwrapAll_nullable (t : IrTy) : (unwrapAll t).2 = isNullable t := by
+  induction t with
+  | nullable t _ => simp [unwrapAll, isNullable]
+  | alias q t ih => simpa [unwrapAll, isNullable] using ih
+  | _ => simp [unwrapAll, isNullable]
+
 /-- JSDoc marks a field optional exactly when it is nullable (the type, seen through aliases, is `T?`) -/
 theorem jsdoc_optional_iff (api : Api) (f : FieldD) : (jsField api f).optional = isNullable f.ty := by
-  have : ∀ t : IrTy, (unwrapAll t).2 = isNullable t := by
-    intro t
-    induction t with
-    | nullable t _ => simp [unwrapAll, isNullable]
-    | alias q t ih => simpa [unwrapAll, isNullable] using ih
-    | _ => simp [unwrapAll, isNullable]
-  simp [jsField, this]
+  simp [jsField, unwrapAll_nullable]
 
-/-- what the TypeScript generator does: optional iff the field type is `T?` at the top, or the field has a default -/
-theorem ts_optional_code (api : Api) (ns : String) (f : FieldD) :
-    (tsField api ns f).optional = f.isOptional := by
-  cases hf : f.ty <;> simp [tsField, FieldD.isOptional, unwrapNullable, hf]
-
-/-- a type in which no alias stands for a nullable type -/
-def noAliasToNullable : IrTy → Bool
-  | .alias _ t => !isNullable t && noAliasToNullable t
-  | _ => true
-
-/-- TypeScript marks a field optional exactly when it is nullable or defaulted.
-
-PARTIAL: only for fields whose type is not an alias of a nullable type. `_generate_struct_type` uses
-`unwrap_nullable`, which does not look through aliases, so `f NS` with `alias NS = String?` is emitted as a
-required property (`ts_optional_alias_gap`); the harness reports this on the real backend. -/
-theorem ts_optional_iff_partial (api : Api) (ns : String) (f : FieldD) (h : noAliasToNullable f.ty = true) :
+/-- TypeScript marks a field optional exactly when it is nullable (also behind aliases) or defaulted.
+(Until the repair of `_generate_struct_type` this held only for fields whose type is not an alias of a nullable
+type: `unwrap_nullable` alone does not look through aliases.) -/
+theorem ts_optional_iff (api : Api) (ns : String) (f : FieldD) :
     (tsField api ns f).optional = (isNullable f.ty || f.hasDefault) := by
-  cases hf : f.ty with
-  | alias q t =>
-    rw [hf] at h
-    simp only [noAliasToNullable, Bool.and_eq_true, Bool.not_eq_true'] at h
-    simp [tsField, unwrapNullable, hf, isNullable, h.1]
-  | _ => simp [tsField, unwrapNullable, hf, isNullable]
+  cases hf : f.ty <;> simp [tsField, unwrapNullable, unwrapAll_nullable, hf, isNullable]
 
-/-- the gap of `ts_optional_iff_partial` is real: a nullable field behind an alias is not marked optional -/
-theorem ts_optional_alias_gap (api : Api) :
+/-- regression (the former gap `alias NS = String?` / `f NS`): both generators mark the field optional, and the
+TypeScript annotation keeps the alias name -/
+example (api : Api) :
     let f : FieldD := ⟨"f", .alias ⟨"a", "NS"⟩ (.nullable (.prim .string)), false⟩
-    isNullable f.ty = true ∧ (tsField api "a" f).optional = false ∧ (jsField api f).optional = true := by
+    isNullable f.ty = true ∧ (tsField api "a" f).optional = true ∧ (jsField api f).optional = true
+      ∧ (tsField api "a" f).ty = tsdFmt api (some "a") true f.ty := by
   simp [isNullable, tsField, jsField, unwrapNullable, unwrapAll]
 
 /-! ## Routes -/
@@ -628,14 +616,14 @@ theorem js_client_completes_iff {opts : Opts} {api : Api}
         exact ⟨f :: fs, by simp [seqE, hfs]⟩
     exact hseq _ hall
 
-/-- js_types completes exactly when no union is without tags (its own and inherited) and the tag paths of the
-enumerated-subtypes trees are found (`fmt_jsdoc_union([])` is the IndexError of the real backend) -/
+/-- js_types completes exactly when the tag paths of the enumerated-subtypes trees are found; a union never stops it
+(until the repair of `_generate_union` a union without tags did: `fmt_jsdoc_union([])` raised IndexError) -/
 theorem js_types_completes_iff {opts : Opts} {api : Api} :
     (∃ ds, jsTypes opts api = .ok ds) ↔
       (∀ n ∈ api.namespaces, ∀ dt ∈ n.dataTypes,
         match dt with
         | .struct s => ∀ e, tagMember api s ≠ .error e
-        | .union u => (unionAllTags api (api.unions.length + 1) u).isEmpty = false) := by
+        | .union _ => True) := by
   have hseq : ∀ (l : List (Except String Decl)), (∃ fs, seqE l = .ok fs) ↔ (∀ e ∈ l, ∃ f, e = Except.ok f) := by
     intro l
     induction l with
@@ -668,12 +656,7 @@ theorem js_types_completes_iff {opts : Opts} {api : Api} :
     | struct s =>
       intro e he
       simp [jsDataE, jsStructDecl, he] at hd
-    | union u =>
-      simp only [jsDataE, jsUnionDecl] at hd
-      show (unionAllTags api (api.unions.length + 1) u).isEmpty = false
-      cases hem : (unionAllTags api (api.unions.length + 1) u).isEmpty with
-      | false => rfl
-      | true => simp [hem] at hd
+    | union u => trivial
   · intro h e he
     rcases List.mem_append.mp he with he | he
     · obtain ⟨d, _, rfl⟩ := List.mem_map.mp he; exact ⟨d, rfl⟩
@@ -688,8 +671,7 @@ theorem js_types_completes_iff {opts : Opts} {api : Api} :
         | error x => exact absurd htm (this x)
         | ok o => exact ⟨_, rfl⟩
       | union u =>
-        simp only at this
-        simp only [jsDataE, jsUnionDecl, this]
+        simp only [jsDataE, jsUnionDecl]
         exact ⟨_, rfl⟩
 
 /-- tsd_client declares one method per route version: named like the js_client function, with `arg: fmt_type(arg)`
@@ -773,8 +755,13 @@ example : ∃ fns, jsClient { requestOptions := true } demoApi = .ok fns ∧ fns
 /-- a union-typed attribute value makes js_client fail, as the real backend does -/
 example : jsRoute {} demoApi "use" ⟨"r", 1, .prim .void, .prim .void, .prim .void, [("host", .unsupported "TagRef")]⟩
     = .error "TypeError: Object of type TagRef is not JSON serializable" := by rfl
-/-- a union without tags makes js_types fail, as the real backend does -/
-example : jsUnionDecl demoApi "t.js" ⟨⟨"base", "E"⟩, none, []⟩ = .error "IndexError: list index out of range" := by
+/-- regression (formerly the IndexError of `fmt_jsdoc_union([])`): a union without tags gets a typedef without a
+`.tag` property, and its TypeScript declaration is `type E = never` -/
+example : jsUnionDecl demoApi "t.js" ⟨⟨"base", "E"⟩, none, []⟩
+    = .ok { file := "t.js", scope := none, kind := .typedef, name := "BaseE", rhs := some (bare "Object"),
+            members := [] } := by
   rfl
+example : (tsdUnionDecls demoApi "t.d.ts" ⟨⟨"base", "E"⟩, none, []⟩).map (·.rhs) = [some (bare "never")] := by
+  decide +kernel
 
 end StoneVerif.C16
